@@ -186,6 +186,7 @@ type trafficCfg struct {
 	Simulate bool `json:"simulations"`            // gas estimation (BaseApp.Simulate) of the block's transactions beforehand
 	Ghost    bool `json:"ghost_deployments"`      // simulations of deployments that are never included
 	Reverse  bool `json:"checktx_reverse_order"`  // the mempool sees the block's transactions in the opposite order
+	Proposal int  `json:"consensus_rounds"`       // PrepareProposal / ProcessProposal before FinalizeBlock: 0 never (a syncing node), 1 some blocks, 2 every block
 }
 
 func (t trafficCfg) String() string {
@@ -193,7 +194,7 @@ func (t trafficCfg) String() string {
 	for _, x := range []struct {
 		b bool
 		n string
-	}{{t.Historic, "historic"}, {t.Window, "window"}, {t.Simulate, "simulate"}, {t.Ghost, "ghost"}, {t.Reverse, "reverse"}} {
+	}{{t.Historic, "historic"}, {t.Window, "window"}, {t.Simulate, "simulate"}, {t.Ghost, "ghost"}, {t.Reverse, "reverse"}, {t.Proposal > 0, fmt.Sprintf("proposal%d", t.Proposal)}} {
 		if x.b {
 			on = append(on, x.n)
 		}
@@ -248,6 +249,24 @@ func (w *world) windowTraffic(rep *replica, r *Rng) {
 			_, _, _ = TwinEthCallAt(c, w.trafficAcc.GetEthAddress(), &a, symbol, 0)
 			w.side.Count("traffic:window:eth_call")
 		}
+	}
+}
+
+// proposalTraffic: the ABCI calls of the consensus rounds before the block is decided
+func (w *world) proposalTraffic(rep *replica, raws [][]byte, r *Rng) {
+	c := rep.c
+	if r.Bool() {
+		var pool [][]byte
+		for i := len(raws) - 1; i >= 0; i-- {
+			pool = append(pool, raws[i])
+		}
+		pool = append(pool, w.trafficTx(rep, &w.logger, []byte{2}))
+		n, err := TwinPrepareProposal(c, pool)
+		w.side.Count(fmt.Sprintf("traffic:prepare_proposal:err=%v:kept_all=%v", err != nil, n == len(pool)))
+	}
+	for i, m := 0, 1+r.Intn(2); i < m; i++ { // a second round re-processes the proposal
+		accepted, err := TwinProcessProposal(c, raws)
+		w.side.Count(fmt.Sprintf("traffic:process_proposal:err=%v:accepted=%v", err != nil, accepted))
 	}
 }
 
